@@ -4,19 +4,22 @@
 (* may be filed under its own id, another key's id, or a foreign id.        *)
 EXTENDS KeyId, Json, SequencesExt
 
-VARIABLES table        \* part 2: a function key -> where it is filed ("own", other key name, "foreign", "absent")
-mc12vars == <<kvars, table>>
+VARIABLES table,       \* part 2: a function key -> where it is filed ("own", other key name, "foreign", "absent")
+          embed,       \* what the key object's own "keyid" member says: "own" id, the "filed" id, or "absent"
+          thalgs       \* whether the keys of the table carry a hash-algorithm list
+mc12vars == <<kvars, table, embed, thalgs>>
 
 TKeys == {"k1", "k2", "k3"}
 Filing == {"own", "k1", "k2", "k3", "foreign", "absent"}
 
 MCInit ==
-  /\ \/ /\ typ \in Types /\ mat = "m1" /\ table = << >> /\ KInitRest
+  /\ \/ /\ typ \in Types /\ mat = "m1" /\ table = << >> /\ embed = "own" /\ thalgs = "default" /\ KInitRest
      \/ /\ typ = "table" /\ mat = "none" /\ d = [typ |-> "none"] /\ path = << >> /\ pc = "done"
         /\ table \in [TKeys -> Filing]
+        /\ embed \in {"own", "filed", "absent"} /\ thalgs \in {"default", "absent"}
         /\ \A k \in TKeys : table[k] # k
 
-UT == UNCHANGED table
+UT == UNCHANGED <<table, embed, thalgs>>
 AFromPrivate == FromPrivate /\ UT
 AFromRaw == (FromRaw \/ FromRawH) /\ UT
 AFromSpki == (FromSpki \/ FromSpkiOtherScheme) /\ UT
@@ -34,7 +37,7 @@ Emit ==
   KDone =>
     PrintT(<<"SCN", ToJson(
       IF typ = "table"
-      THEN [m |-> "C12", kind |-> "table", table |-> [k \in TKeys |-> table[k]],
+      THEN [m |-> "C12", kind |-> "table", table |-> [k \in TKeys |-> table[k]], embed |-> embed, halgs |-> thalgs,
             survivors |-> SetToSeq(Survivors)]
       ELSE [m |-> "C12", kind |-> "path", typ |-> typ, path |-> path,
             halgs |-> d.halgs, scheme |-> d.scheme])>>)
